@@ -233,6 +233,26 @@ Definition small_step (b v : rinfo) : Prop :=
   (exists n, In n (raft_nodes b) /\ In n (keys (removings b)) /\
              forall x, In x (raft_nodes v) <-> In x (raft_nodes b) /\ x <> n).
 
+(* how the keys of RaftIDs / Removings / the learner list follow the voter set in one update (used for the key
+   consistency theorem under role separation, see keys_consistent) *)
+Record krel (b v : rinfo) : Prop := mkKrel {
+  kr_newnode : forall n, In n (raft_nodes v) -> In n (raft_nodes b) \/ In n (keys (raft_ids v));
+  kr_keepid  : forall n, In n (raft_nodes v) -> In n (keys (raft_ids b)) -> In n (keys (raft_ids v)) \/ In n (learners b);
+  kr_newmark : forall n, In n (keys (removings v)) ->
+                         In n (keys (removings b)) \/ In n (raft_nodes b) \/ In n (keys (raft_ids b));
+  kr_dropped : forall n, In n (raft_nodes b) -> ~ In n (raft_nodes v) ->
+                         ~ In n (keys (removings v)) /\ (~ In n (keys (raft_ids v)) \/ In n (learners v));
+  kr_newid   : forall n, In n (keys (raft_ids v)) -> In n (keys (raft_ids b)) \/ In n (raft_nodes v) \/ In n (learners v);
+  kr_droplrn : forall n, In n (learners b) -> ~ In n (learners v) -> ~ In n (keys (raft_ids v)) \/ In n (raft_nodes v)
+}.
+Lemma krel_refl : forall i, krel i i.
+Proof. intros. constructor; intros; try tauto; contradiction. Qed.
+Lemma keys_aset : forall A k (v : A) m x, In x (keys (aset k v m)) <-> (In x (keys m) /\ x <> k) \/ x = k.
+Proof.
+  intros. unfold aset. rewrite keys_app, in_app_iff, keys_aremove, filter_In, negb_true_iff, N.eqb_neq. simpl.
+  split; [intros [H|[H|[]]]; auto|intros [H|H]; auto].
+Qed.
+
 Record trans (b v : rinfo) : Prop := mkTrans {
   tr_max  : max_id b <= max_id v;                                   (* MaxRaftID never decreases *)
   tr_ids  : forall n id, In (n, id) (raft_ids v) -> In (n, id) (raft_ids b) \/ max_id b < id;
@@ -241,15 +261,19 @@ Record trans (b v : rinfo) : Prop := mkTrans {
                         In y (raft_nodes v) -> ~ In y (raft_nodes b) -> x = y;   (* at most one node added *)
   tr_drop : forall x, In x (raft_nodes b) -> ~ In x (raft_nodes v) -> In x (keys (removings b));
                                                                     (* only a replica marked removing is dropped *)
-  tr_small : small_step b v
+  tr_small : small_step b v;
+  tr_krel : krel b v
 }.
 
 Lemma trans_refl : forall i, trans i i.
-Proof. intros. constructor; [lia|auto|intros; contradiction|intros; contradiction|left; tauto]. Qed.
-Lemma trans_set_epoch_r : forall b v e, trans b v -> trans b (set_epoch v e).
-Proof. intros b v e [H1 H2 H3 H4 H5]. constructor; simpl; assumption. Qed.
-Lemma trans_mark : forall i n now, trans i (mark_removing i n now).
-Proof. intros. constructor; simpl; [lia|auto|intros; contradiction|intros; contradiction|left; simpl; tauto]. Qed.
+Proof. intros. constructor; [lia|auto|intros; contradiction|intros; contradiction|left; tauto|apply krel_refl]. Qed.
+Lemma trans_mark : forall i n now,
+  In n (raft_nodes i) \/ In n (keys (raft_ids i)) -> trans i (mark_removing i n now).
+Proof.
+  intros i n now Hn. constructor; simpl; [lia|auto|intros; contradiction|intros; contradiction|left; simpl; tauto|].
+  constructor; simpl; intros; try tauto; try contradiction.
+  apply keys_aset in H. destruct H as [[H _]|H]; [left; exact H|subst; right; exact Hn].
+Qed.
 Lemma trans_add : forall i n, trans i (add_node i n).
 Proof.
   intros. constructor; simpl.
@@ -264,6 +288,15 @@ Proof.
     + left. simpl. intros x. rewrite in_app_iff. simpl. split; [intros [H|[H|[]]]; [exact H|subst; exact Hin]|tauto].
     + right. left. exists n. split; [exact Hin|]. simpl. intros x. rewrite in_app_iff. simpl.
       split; [intros [H|[H|[]]]; auto|intros [H|H]; auto].
+  - constructor; simpl.
+    + intros x Hx. rewrite in_app_iff in Hx. simpl in Hx. destruct Hx as [Hx|[Hx|[]]]; [left; exact Hx|].
+      subst. right. apply keys_aset. right. reflexivity.
+    + intros x _ Hk. left. apply keys_aset. destruct (N.eq_dec x n); [right; assumption|left; split; assumption].
+    + intros x Hx. left. exact Hx.
+    + intros x Hx Hnx. exfalso. apply Hnx. rewrite in_app_iff. left. exact Hx.
+    + intros x Hx. apply keys_aset in Hx. destruct Hx as [[Hx _]|Hx]; [left; exact Hx|].
+      subst. right. left. rewrite in_app_iff. right. left. reflexivity.
+    + intros x Hx Hnx. contradiction.
 Qed.
 
 (* a value obtained by dropping replicas that are marked removing *)
@@ -274,23 +307,41 @@ Record shrinks (b v : rinfo) : Prop := mkShr {
   sh_nodes : forall x, In x (raft_nodes v) -> In x (raft_nodes b);
   sh_drop  : forall x, In x (raft_nodes b) -> ~ In x (raft_nodes v) -> In x (keys (removings b));
   sh_rm    : len (removings v) <= len (removings b);
-  sh_rmk   : forall x, In x (keys (removings v)) -> In x (keys (removings b))
+  sh_rmk   : forall x, In x (keys (removings v)) -> In x (keys (removings b));
+  sh_lrn   : learners v = learners b;
+  sh_keep  : forall x, In x (raft_nodes v) -> In x (keys (raft_ids b)) -> In x (keys (raft_ids v));
+  sh_gone  : forall x, In x (raft_nodes b) -> ~ In x (raft_nodes v) ->
+                       ~ In x (keys (removings v)) /\ ~ In x (keys (raft_ids v))
 }.
 Lemma shrinks_refl : forall i, shrinks i i.
-Proof. intros. constructor; auto; [intros; contradiction|lia]. Qed.
+Proof. intros. constructor; auto; try lia; intros; contradiction. Qed.
 Lemma shrinks_drop : forall b v n, shrinks b v -> In n (keys (removings b)) -> shrinks b (drop_node v n).
 Proof.
-  intros b v n [H1 H2 H3 H4 H5 H6 H7] Hn. constructor; simpl; try assumption.
+  intros b v n [H1 H2 H3 H4 H5 H6 H7 H8 H9 H10] Hn. constructor; simpl; try assumption.
   - intros e He. apply In_aremove in He. apply H3. tauto.
   - intros x Hx. apply filter_In in Hx. apply H4. tauto.
   - intros x Hx Hnx. rewrite filter_In, negb_true_iff, N.eqb_neq in Hnx.
     destruct (N.eq_dec x n) as [->|Hne]; [exact Hn|]. apply H5; [exact Hx|]. intros Hv. apply Hnx. tauto.
   - assert (H := len_removings_drop v n). simpl in H. lia.
   - intros x Hx. rewrite keys_aremove in Hx. apply filter_In in Hx. apply H7. tauto.
+  - intros x Hx Hk. apply filter_In in Hx. destruct Hx as [Hx Hne]. rewrite negb_true_iff, N.eqb_neq in Hne.
+    rewrite keys_aremove, filter_In, negb_true_iff, N.eqb_neq. split; [apply H9; assumption|exact Hne].
+  - intros x Hx Hnx. rewrite !keys_aremove, !filter_In, negb_true_iff, N.eqb_neq.
+    rewrite filter_In, negb_true_iff, N.eqb_neq in Hnx.
+    destruct (in_dec N.eq_dec x (raft_nodes v)) as [Hv|Hv].
+    + assert (x = n) by (destruct (N.eq_dec x n); [assumption|exfalso; apply Hnx; tauto]). subst. tauto.
+    + destruct (H10 x Hx Hv) as [A B]. tauto.
 Qed.
 Lemma shrinks_trans : forall b v, len (removings b) <= 1 -> shrinks b v -> trans b v.
 Proof.
-  intros b v Hl [H1 H2 H3 H4 H5 H6 H7]. constructor.
+  intros b v Hl [H1 H2 H3 H4 H5 H6 H7 H8 H9 H10]. constructor.
+  6: { constructor.
+       - intros n Hn. left. apply H4. exact Hn.
+       - intros n Hn Hk. left. apply H9; assumption.
+       - intros n Hn. left. apply H7. exact Hn.
+       - intros n Hn Hnn. destruct (H10 n Hn Hnn) as [A B]. split; [exact A|left; exact B].
+       - intros n Hn. left. apply in_map_iff in Hn. destruct Hn as [e [He Hn]]. subst. apply in_map. apply H3. exact Hn.
+       - intros n Hn Hnn. rewrite H8 in Hnn. contradiction. }
   - lia.
   - intros n id Hi. left. apply H3. exact Hi.
   - intros x y Hx Hnx. exfalso. apply Hnx. apply H4. exact Hx.
@@ -448,7 +499,7 @@ Proof.
     + apply wf_mark. exact Hw.
     + apply N.ltb_ge in E6. exact E6.
     + intros _. apply is_quorum_spec. exact E5.
-  - apply trans_mark.
+  - apply trans_mark. right. apply ahas_In. exact E2.
   - intros _. apply is_quorum_spec. exact E5.
   - exact HP.
 Qed.
@@ -618,7 +669,7 @@ Proof.
     destruct (alive <=? replica / 2) eqn:Eal; [apply pspec_noop; exact Hi|].
     rewrite andb_true_r.
     destruct (len cur <? replica); [apply pspec_noop; exact Hi|].
-    apply migrate_tail; [exact Hi|apply wf_mark; assumption|apply trans_mark|].
+    apply migrate_tail; [exact Hi|apply wf_mark; assumption|apply trans_mark; left; exact Hx|].
     intros a Hb Hv. split.
     + intros Hm. exfalso. revert Hm. apply no_new_node_same. rewrite Hb, Hv. reflexivity.
     + intros _. rewrite Hb. apply N.leb_gt in Eal. lia.
@@ -847,10 +898,13 @@ Proof.
 Qed.
 Lemma trans_perm : forall i l, Permutation l (raft_nodes i) -> trans i (with_nodes i l).
 Proof.
-  intros i l Hp. constructor; simpl; [lia|auto| | |].
+  intros i l Hp. constructor; simpl; [lia|auto| | | |].
   - intros x y Hx Hnx. exfalso. apply Hnx. eapply Permutation_in; [exact Hp|exact Hx].
   - intros x Hx Hnx. exfalso. apply Hnx. eapply Permutation_in; [apply Permutation_sym; exact Hp|exact Hx].
   - left. simpl. intros x. split; intros H; [eapply Permutation_in; [exact Hp|exact H]|eapply Permutation_in; [apply Permutation_sym; exact Hp|exact H]].
+  - constructor; simpl; intros; try tauto; try contradiction.
+    + left. eapply Permutation_in; [exact Hp|exact H].
+    + exfalso. apply H0. eapply Permutation_in; [apply Permutation_sym; exact Hp|exact H].
 Qed.
 
 Lemma swap_loop_spec : forall replica (P : attempt -> Prop) leader orig idx ns r moved atts0,
@@ -1076,9 +1130,10 @@ Qed.
 Lemma trans_ids_only : forall i ids mx l,
   max_id i <= mx ->
   (forall n id, In (n, id) ids -> In (n, id) (raft_ids i) \/ max_id i < id) ->
+  krel i (with_learners i ids mx l) ->
   trans i (with_learners i ids mx l).
 Proof.
-  intros i ids mx l Hm Hids. constructor; simpl; [exact Hm|exact Hids| | |].
+  intros i ids mx l Hm Hids Hk. constructor; simpl; [exact Hm|exact Hids| | | |exact Hk].
   - intros x y Hx Hnx. contradiction.
   - intros x Hx Hnx. contradiction.
   - left. simpl. tauto.
@@ -1093,6 +1148,57 @@ Proof.
   - apply no_new_mark_same. rewrite Hb, Hv. reflexivity.
 Qed.
 
+Lemma krel_ladd : forall i nid,
+  krel i (with_learners i (aset nid (max_id i + 1) (raft_ids i)) (max_id i + 1) (learners i ++ [nid])).
+Proof.
+  intros. constructor; simpl; intros; try tauto; try contradiction.
+  - left. apply keys_aset. destruct (N.eq_dec n nid); [right; assumption|left; split; assumption].
+  - apply keys_aset in H. destruct H as [[H _]|H]; [left; exact H|]. subst. right. right. rewrite in_app_iff. right. left. reflexivity.
+  - exfalso. apply H0. rewrite in_app_iff. left. exact H.
+Qed.
+Lemma krel_lleader : forall i idx,
+  krel i (with_learners i (raft_ids i) (max_id i) (swap_to_front (learners i) idx)).
+Proof.
+  intros. constructor; simpl; intros; try tauto; try contradiction.
+  exfalso. apply H0. eapply Permutation_in; [apply Permutation_sym; apply swap_to_front_perm|exact H].
+Qed.
+Lemma filter_same_len_notin : forall (l : list N) k,
+  len (filter (fun x => negb (x =? k)) l) <> len l -> In k l.
+Proof.
+  intros l k. unfold len. induction l as [|y l IH]; simpl; [intros H; exfalso; apply H; reflexivity|].
+  destruct (y =? k) eqn:E; simpl.
+  - intros _. left. apply N.eqb_eq in E. exact E.
+  - intros H. right. apply IH. intros He. apply H. lia.
+Qed.
+Lemma krel_lremove : forall i nid, In nid (learners i) ->
+  krel i (with_learners i (aremove nid (raft_ids i)) (max_id i) (filter (fun x => negb (x =? nid)) (learners i))).
+Proof.
+  intros i nid Hin. constructor; simpl; intros; try tauto; try contradiction.
+  - destruct (N.eq_dec n nid) as [->|Hne]; [right; exact Hin|].
+    left. rewrite keys_aremove, filter_In, negb_true_iff, N.eqb_neq. tauto.
+  - left. rewrite keys_aremove, filter_In in H. tauto.
+  - left. rewrite filter_In, negb_true_iff, N.eqb_neq in H0.
+    assert (n = nid) by (destruct (N.eq_dec n nid); [assumption|exfalso; apply H0; tauto]). subst.
+    rewrite keys_aremove, filter_In, negb_true_iff, N.eqb_neq. tauto.
+Qed.
+Lemma fold_aremove_keys : forall (l : list N) (ids : list (N * N)) x,
+  In x (keys (fold_left (fun m n => aremove n m) l ids)) <-> In x (keys ids) /\ ~ In x l.
+Proof.
+  induction l as [|n l IH]; intros ids x; simpl; [tauto|].
+  rewrite IH, keys_aremove, filter_In, negb_true_iff, N.eqb_neq. split.
+  - intros [[A B] C]. split; [exact A|]. intros [D|D]; [apply B; symmetry; exact D|apply C; exact D].
+  - intros [A B]. split; [split; [exact A|]|]; intros D; apply B; [left; symmetry; exact D|right; exact D].
+Qed.
+Lemma krel_lremove_all : forall i,
+  krel i (with_learners i (fold_left (fun m n => aremove n m) (learners i) (raft_ids i)) (max_id i) []).
+Proof.
+  intros. constructor; simpl; intros; try tauto; try contradiction.
+  - destruct (in_dec N.eq_dec n (learners i)) as [Hl|Hl]; [right; exact Hl|].
+    left. apply fold_aremove_keys. tauto.
+  - left. apply fold_aremove_keys in H. tauto.
+  - left. rewrite fold_aremove_keys. tauto.
+Qed.
+
 Lemma learner_add_spec : forall replica r nid,
   Inv replica (r_info r) -> pspec replica quiet r (learner_add r (r_info r) nid).
 Proof.
@@ -1104,7 +1210,7 @@ Proof.
   apply pspec_update.
   - exact Hi.
   - apply Inv_ids_only; assumption.
-  - apply trans_ids_only; [lia|]. intros n id Hin. unfold aset in Hin. rewrite in_app_iff in Hin.
+  - apply trans_ids_only; [lia| |apply krel_ladd]. intros n id Hin. unfold aset in Hin. rewrite in_app_iff in Hin.
     destruct Hin as [Hin|[Hin|[]]]; [left; apply In_aremove in Hin; tauto|inversion Hin; right; lia].
   - intros Hlt. exfalso. unfold with_learners, isr in Hlt. simpl in Hlt. lia.
   - intros a Hb Hv. eapply quiet_with_learners; eassumption.
@@ -1119,7 +1225,7 @@ Proof.
   apply pspec_update.
   - exact Hi.
   - apply Inv_ids_only; [exact Hi|apply (wf_ids_nodup _ Hw)|apply (wf_ids_inj _ Hw)|apply (wf_ids_max _ Hw)].
-  - apply trans_ids_only; [lia|auto].
+  - apply trans_ids_only; [lia|auto|apply krel_lleader].
   - intros Hlt. exfalso. unfold with_learners, isr in Hlt. simpl in Hlt. lia.
   - intros a Hb Hv. eapply quiet_with_learners; eassumption.
 Qed.
@@ -1148,15 +1254,16 @@ Lemma learner_remove_spec : forall replica lnodes r nid chk,
 Proof.
   intros replica lnodes r nid chk Hi. unfold learner_remove.
   destruct (chk && ahas nid lnodes); [apply pspec_noop; exact Hi|].
-  destruct (len (filter (fun x : N => negb (x =? nid)) (learners (r_info r))) =? len (learners (r_info r)));
+  destruct (len (filter (fun x : N => negb (x =? nid)) (learners (r_info r))) =? len (learners (r_info r))) eqn:Elen;
     [apply pspec_noop; exact Hi|].
+  apply N.eqb_neq in Elen. apply filter_same_len_notin in Elen.
   assert (Hw : wf (r_info r)) by (destruct Hi as [Hw _]; exact Hw).
   destruct (ids_aremove_ok (raft_ids (r_info r)) (max_id (r_info r)) nid
               (conj (wf_ids_nodup _ Hw) (conj (wf_ids_inj _ Hw) (wf_ids_max _ Hw)))) as [A [B C]].
   apply pspec_update.
   - exact Hi.
   - apply Inv_ids_only; assumption.
-  - apply trans_ids_only; [lia|]. intros n id Hin. left. apply In_aremove in Hin. tauto.
+  - apply trans_ids_only; [lia| |apply krel_lremove; exact Elen]. intros n id Hin. left. apply In_aremove in Hin. tauto.
   - intros Hlt. exfalso. unfold with_learners, isr in Hlt. simpl in Hlt. lia.
   - intros a Hb Hv. eapply quiet_with_learners; eassumption.
 Qed.
@@ -1172,7 +1279,7 @@ Proof.
   apply pspec_update.
   - exact Hi.
   - apply Inv_ids_only; assumption.
-  - apply trans_ids_only; [lia|]. intros n id Hin. left. apply D. exact Hin.
+  - apply trans_ids_only; [lia| |rewrite <- El; apply krel_lremove_all]. intros n id Hin. left. apply D. exact Hin.
   - intros Hlt. exfalso. unfold with_learners, isr in Hlt. simpl in Hlt. lia.
   - intros a Hb Hv. eapply quiet_with_learners; eassumption.
 Qed.
@@ -1514,3 +1621,76 @@ Lemma init_inv : forall replica info auto, Inv replica info ->
 Proof. intros. simpl. apply Inv_set_epoch. assumption. Qed.
 
 End WithQ.
+
+(* ------------------------------------------------------------------------------------------ *)
+(* key consistency under role separation                                                       *)
+(* ------------------------------------------------------------------------------------------ *)
+(* Nothing in the coordinator checks that a node is not both a data node and a learner; the cluster keeps the two
+   kinds apart (a node's learner role never changes: handleDataNodes, the register's role check). Under that
+   explicit hypothesis - stated on the log: no write makes a learner-role node a voter, a data-role node a
+   learner, or marks a learner-role node removing - every written value keeps RaftIDs keyed by exactly the
+   voters and the learners, and every removing entry belongs to a voter. *)
+Section Roles.
+Variable L : N -> bool.     (* L n = true: n is a learner node *)
+
+Definition keys_consistent_at (i : rinfo) : Prop :=
+  (forall n, In n (raft_nodes i) -> L n = false) /\
+  (forall n, In n (learners i) -> L n = true) /\
+  (forall n, In n (raft_nodes i) -> In n (keys (raft_ids i))) /\            (* every voter has an id *)
+  (forall n, In n (keys (removings i)) -> In n (raft_nodes i)) /\           (* a removing entry belongs to a voter *)
+  (forall n, In n (keys (raft_ids i)) -> In n (raft_nodes i) \/ In n (learners i)).   (* no stale ids *)
+
+Definition roles_respected (b v : rinfo) : Prop :=
+  (forall n, In n (raft_nodes v) -> ~ In n (raft_nodes b) -> L n = false) /\
+  (forall n, In n (learners v) -> ~ In n (learners b) -> L n = true) /\
+  (forall n, In n (keys (removings v)) -> ~ In n (keys (removings b)) -> L n = false).
+
+Lemma K_step : forall b v, keys_consistent_at b -> krel b v -> roles_respected b v -> keys_consistent_at v.
+Proof.
+  intros b v [K1 [K2 [K3 [K4 K5]]]] [R1 R2 R3 R4 R5 R6] [P1 [P2 P3]].
+  assert (D := in_dec N.eq_dec).
+  assert (HK1 : forall n, In n (raft_nodes v) -> L n = false).
+  { intros n Hn. destruct (D n (raft_nodes b)) as [Hb|Hb]; [apply K1; exact Hb|apply P1; assumption]. }
+  assert (HK2 : forall n, In n (learners v) -> L n = true).
+  { intros n Hn. destruct (D n (learners b)) as [Hb|Hb]; [apply K2; exact Hb|apply P2; assumption]. }
+  split; [exact HK1|]. split; [exact HK2|]. split; [|split].
+  - intros n Hn. destruct (D n (raft_nodes b)) as [Hb|Hb].
+    + destruct (R2 n Hn (K3 n Hb)) as [H|H]; [exact H|].
+      exfalso. specialize (K1 n Hb). specialize (K2 n H). congruence.
+    + destruct (R1 n Hn) as [H|H]; [contradiction|exact H].
+  - intros n Hn.
+    assert (Hnb : In n (raft_nodes b)).
+    { destruct (D n (keys (removings b))) as [Hb|Hb]; [apply K4; exact Hb|].
+      destruct (R3 n Hn) as [H|[H|H]]; [contradiction|exact H|].
+      destruct (K5 n H) as [H'|H']; [exact H'|].
+      exfalso. specialize (K2 n H'). specialize (P3 n Hn Hb). congruence. }
+    destruct (D n (raft_nodes v)) as [Hv|Hv]; [exact Hv|].
+    exfalso. destruct (R4 n Hnb Hv) as [A _]. contradiction.
+  - intros n Hn. destruct (R5 n Hn) as [H|[H|H]]; [|left; exact H|right; exact H].
+    destruct (K5 n H) as [Hb|Hb].
+    + destruct (D n (raft_nodes v)) as [Hv|Hv]; [left; exact Hv|].
+      destruct (R4 n Hb Hv) as [_ [A|A]]; [contradiction|right; exact A].
+    + destruct (D n (learners v)) as [Hv|Hv]; [right; exact Hv|].
+      destruct (R6 n Hb Hv) as [A|A]; [contradiction|left; exact A].
+Qed.
+
+Lemma K_set_epoch : forall i e, keys_consistent_at i -> keys_consistent_at (set_epoch i e).
+Proof. intros i e H. exact H. Qed.
+
+Lemma keys_consistent : forall c atts f,
+  chain c atts f ->
+  Forall (fun a => trans (a_before a) (a_value a)) atts ->
+  Forall (fun a => roles_respected (a_before a) (a_value a)) atts ->
+  keys_consistent_at c ->
+  Forall (fun a => keys_consistent_at (a_value a)) atts /\ keys_consistent_at f.
+Proof.
+  intros c atts f H. induction H as [c|c a t f Hb Hk Hc IH|c a t f e Hb Hk Hc IH]; intros Ht Hr HK.
+  - split; [constructor|exact HK].
+  - inversion Ht as [|? ? Ht1 Ht2]; inversion Hr as [|? ? Hr1 Hr2]; subst.
+    assert (Hv : keys_consistent_at (a_value a)) by (apply (K_step (a_before a)); [exact HK|apply (tr_krel _ _ Ht1)|exact Hr1]).
+    destruct (IH Ht2 Hr2 HK) as [A B]. split; [constructor; assumption|exact B].
+  - inversion Ht as [|? ? Ht1 Ht2]; inversion Hr as [|? ? Hr1 Hr2]; subst.
+    assert (Hv : keys_consistent_at (a_value a)) by (apply (K_step (a_before a)); [exact HK|apply (tr_krel _ _ Ht1)|exact Hr1]).
+    destruct (IH Ht2 Hr2 (K_set_epoch _ e Hv)) as [A B]. split; [constructor; assumption|exact B].
+Qed.
+End Roles.
